@@ -394,7 +394,8 @@ pub fn run_stream(prop: &dyn Property, args: StreamArgs) -> i32 {
     // watchdog
     {
         let started = started.clone();
-        let limit_ms = prop.watchdog_s() * 1000;
+        // QV_WATCHDOG_MS: developer aid to exercise the expiry path
+        let limit_ms = std::env::var("QV_WATCHDOG_MS").ok().and_then(|v| v.parse::<u64>().ok()).unwrap_or(prop.watchdog_s() * 1000);
         let hang_path = args.outdir.join(format!("hang-{}", args.stream));
         std::thread::spawn(move || loop {
             std::thread::sleep(Duration::from_millis(250));
@@ -806,6 +807,8 @@ pub fn check(prop: &dyn Property, all: &dyn Fn(&str) -> Option<&'static dyn Prop
             .spawn()
             .expect("spawn stream")
     };
+    // watchdog expiries inside a stream that turned out to be machine load (the case finished alone)
+    let mut load_reruns = 0u64;
     struct Running {
         stream: u64,
         child: std::process::Child,
@@ -851,6 +854,36 @@ pub fn check(prop: &dyn Property, all: &dyn Fn(&str) -> Option<&'static dyn Prop
                     };
                     match read_slot(&run_dir.join(format!("slot-{stream}"))) {
                         None => inconclusive = Some(format!("stream {stream} died ({how}) before any case")),
+                        Some((index, case))
+                            if how == "hang" && violation.is_none() && {
+                                // A watchdog expiry inside a stream may be machine load. Re-run the case
+                                // alone with four times the budget: if it comes back, the expiry says
+                                // nothing about the property and the stream carries on — behind the case
+                                // if it passed alone, at the case (to report and shrink it in the usual
+                                // way) if it failed alone.
+                                let o = spawn_one(id, &case, &run_dir, &active, 4 * prop.watchdog_s() + 10);
+                                match o.failure {
+                                    Some(ref f) if f.sig == "hang" => false,
+                                    _ if r.restarts >= 40 => {
+                                        inconclusive = Some(format!(
+                                            "stream {stream}: more than 40 watchdog expiries on cases that finish when run alone (machine load?); last: {}",
+                                            short_case(&case)
+                                        ));
+                                        true
+                                    }
+                                    Some(_) => {
+                                        load_reruns += 1;
+                                        running.push(Running { stream, child: spawn_stream(stream, index), restarts: r.restarts + 1 });
+                                        true
+                                    }
+                                    None => {
+                                        load_reruns += 1;
+                                        merged.res.evaluations += 1;
+                                        running.push(Running { stream, child: spawn_stream(stream, index + 1), restarts: r.restarts + 1 });
+                                        true
+                                    }
+                                }
+                            } => {}
                         Some((index, case)) => match prop.classify_death(&how, &case) {
                             None => {
                                 inconclusive = Some(format!(
@@ -868,19 +901,6 @@ pub fn check(prop: &dyn Property, all: &dyn Fn(&str) -> Option<&'static dyn Prop
                                     } else {
                                         merged.truncated_streams += 1;
                                     }
-                                } else if violation.is_none() && how == "hang" && {
-                                    // A watchdog expiry inside a stream may be machine load. Re-run the case
-                                    // alone with four times the budget: if it comes back at all, the
-                                    // expiry says nothing about the property (exit 2), whatever the verdict
-                                    // of that re-run — a real failure of the case is found again by the
-                                    // stream that restarts behind it.
-                                    let o = spawn_one(id, &case, &run_dir, &active, 4 * prop.watchdog_s() + 10);
-                                    !matches!(o.failure, Some(ref f) if f.sig == "hang")
-                                } {
-                                    inconclusive = Some(format!(
-                                        "stream {stream}: watchdog expired on case #{index}, but the case finishes when run alone (machine load?): {}",
-                                        short_case(&case)
-                                    ));
                                 } else if violation.is_none() {
                                     // minimise through children, same signature only
                                     let sig = fl.sig.clone();
@@ -980,6 +1000,7 @@ pub fn check(prop: &dyn Property, all: &dyn Fn(&str) -> Option<&'static dyn Prop
         "exhaustive": prop.exhaustive(args.tier),
         "streams": nstreams,
         "truncated_streams": merged.truncated_streams,
+        "watchdog_expiries_rerun_alone": load_reruns,
     });
     if let Some(e) = prop.exhaustive_part(args.tier) {
         coverage["exhaustive_part"] = serde_json::Value::String(e);
